@@ -1529,6 +1529,10 @@ func ReadLV(r io.Reader) ([]byte, error) {
 		return nil, fmt.Errorf("read message size: %s", err)
 	}
 
+	if sz < 0 {
+		return nil, fmt.Errorf("invalid message size: %d", sz)
+	}
+
 	if sz >= MaxMessageSize {
 		return nil, fmt.Errorf("max message size of %d exceeded: %d", MaxMessageSize, sz)
 	}
